@@ -42,6 +42,13 @@ package bondmachine
 //@               vm.Bmach.Internal_inputs[i].Res_id != vm.Bmach.Internal_inputs[k].Res_id) &&
 //@            (forall i int, k int :: 0 <= i && i < k && k < len(vm.Bmach.Internal_outputs) && vm.Bmach.Internal_outputs[i].Map_to == 0 && vm.Bmach.Internal_outputs[k].Map_to == 0 ==>
 //@               vm.Bmach.Internal_outputs[i].Res_id != vm.Bmach.Internal_outputs[k].Res_id)
+//@   requires sep_procs: forall r int :: 0 <= r && r < len(vm.Processors) && vm.Processors[r] != nil ==>
+//@               arr(vm.Processors[r].Outputs) != arr(vm.Internal_outputs_regs) && arr(vm.Processors[r].OutputsValid) != arr(vm.InternalOutputsValid) &&
+//@               arr(vm.Processors[r].InputsRecv) != arr(vm.InternalInputsRecv)
+//@   requires proc_ports: (forall i int :: 0 <= i && i < len(vm.Bmach.Internal_outputs) && vm.Bmach.Internal_outputs[i].Map_to == 3 ==>
+//@               0 <= vm.Bmach.Internal_outputs[i].Res_id && vm.Bmach.Internal_outputs[i].Res_id < len(vm.Processors) && vm.Processors[vm.Bmach.Internal_outputs[i].Res_id] != nil) &&
+//@            (forall i int :: 0 <= i && i < len(vm.Bmach.Internal_inputs) && vm.Bmach.Internal_inputs[i].Map_to == 2 ==>
+//@               0 <= vm.Bmach.Internal_inputs[i].Res_id && vm.Bmach.Internal_inputs[i].Res_id < len(vm.Processors) && vm.Processors[vm.Bmach.Internal_inputs[i].Res_id] != nil)
 //@   ensures ext_out: forall i int :: 0 <= i && i < len(vm.Bmach.Internal_inputs) && vm.Bmach.Internal_inputs[i].Map_to == 1 ==>
 //@             vm.Outputs_regs[vm.Bmach.Internal_inputs[i].Res_id] == vm.Internal_inputs_regs[i] && vm.OutputsValid[vm.Bmach.Internal_inputs[i].Res_id] == vm.InternalInputsValid[i]
 //@   ensures ext_ack: forall i int :: 0 <= i && i < len(vm.Bmach.Internal_outputs) && vm.Bmach.Internal_outputs[i].Map_to == 0 ==>
@@ -55,7 +62,7 @@ package bondmachine
 //@   ensures recv_and0: forall j int :: 0 <= j && j < len(vm.Bmach.Internal_outputs) && !vm.InternalOutputsRecv[j] ==>
 //@             (!fedBy(vm, j, len(vm.Bmach.Links)) || (exists k int :: 0 <= k && k < len(vm.Bmach.Links) && vm.Bmach.Links[k] == j && !vm.InternalInputsRecv[k]))
 //@   ensures tick: vm.abs_tick == old(vm.abs_tick) + 1 || vm.abs_tick == 0
-//@   sync preserves vm.*, vm.Bmach.*, vm.Bmach.Links[*], vm.Bmach.Internal_inputs[*], vm.Bmach.Internal_outputs[*], vm.Processors[*],
+//@   sync preserves vm.*, vm.Bmach.*, vm.Bmach.Links[*], vm.Bmach.Internal_inputs[*], vm.Bmach.Internal_outputs[*], vm.Processors[*], vm.Processors[*].Outputs, vm.Processors[*].OutputsValid, vm.Processors[*].InputsRecv,
 //@        vm.Inputs_regs[*], vm.Outputs_regs[*], vm.Internal_inputs_regs[*], vm.Internal_outputs_regs[*],
 //@        vm.InputsValid[*], vm.OutputsValid[*], vm.InternalInputsValid[*], vm.InternalOutputsValid[*],
 //@        vm.InputsRecv[*], vm.OutputsRecv[*], vm.InternalInputsRecv[*], vm.InternalOutputsRecv[*]
@@ -91,6 +98,17 @@ package bondmachine
 //@   loop 7: entry pre_recv0: forall j int :: 0 <= j && j < len(vm.Bmach.Internal_outputs) && !vm.InternalOutputsRecv[j] ==>
 //@             (!fedBy(vm, j, len(vm.Bmach.Links)) || (exists k int :: 0 <= k && k < len(vm.Bmach.Links) && vm.Bmach.Links[k] == j && !vm.InternalInputsRecv[k]))
 //@   loop 10: modifies vm.Internal_outputs_regs[*], vm.InternalOutputsValid[*]
+//@   loop 10: invariant sep: forall k int :: 0 <= k && k < len(vm.Bmach.Internal_outputs) && vm.Bmach.Internal_outputs[k].Map_to == 3 ==>
+//@             arr(vm.Processors[vm.Bmach.Internal_outputs[k].Res_id].Outputs) != arr(vm.Internal_outputs_regs) &&
+//@             arr(vm.Processors[vm.Bmach.Internal_outputs[k].Res_id].OutputsValid) != arr(vm.InternalOutputsValid)
+//@   loop 10: invariant proc_out: forall k int :: 0 <= k && k < $i && vm.Bmach.Internal_outputs[k].Map_to == 3 ==>
+//@             vm.Internal_outputs_regs[k] == vm.Processors[vm.Bmach.Internal_outputs[k].Res_id].Outputs[vm.Bmach.Internal_outputs[k].Ext_id] &&
+//@             vm.InternalOutputsValid[k] == vm.Processors[vm.Bmach.Internal_outputs[k].Res_id].OutputsValid[vm.Bmach.Internal_outputs[k].Ext_id]
+// what the link transfer of the post-compute phase starts from: every internal output standing for a processor output
+// carries that processor output's data and valid line
+//@   loop 11: entry proc_out: forall k int :: 0 <= k && k < len(vm.Bmach.Internal_outputs) && vm.Bmach.Internal_outputs[k].Map_to == 3 ==>
+//@             vm.Internal_outputs_regs[k] == vm.Processors[vm.Bmach.Internal_outputs[k].Res_id].Outputs[vm.Bmach.Internal_outputs[k].Ext_id] &&
+//@             vm.InternalOutputsValid[k] == vm.Processors[vm.Bmach.Internal_outputs[k].Res_id].OutputsValid[vm.Bmach.Internal_outputs[k].Ext_id]
 //@   loop 11: modifies vm.Internal_inputs_regs[*], vm.InternalInputsValid[*]
 //@   loop 11: invariant done: forall k int :: 0 <= k && k < i && vm.Bmach.Links[k] != -1 ==>
 //@             vm.Internal_inputs_regs[k] == vm.Internal_outputs_regs[vm.Bmach.Links[k]] &&
@@ -99,6 +117,12 @@ package bondmachine
 //@   loop 12: invariant ext_out: forall k int :: 0 <= k && k < $i && vm.Bmach.Internal_inputs[k].Map_to == 1 ==>
 //@             vm.Outputs_regs[vm.Bmach.Internal_inputs[k].Res_id] == vm.Internal_inputs_regs[k] && vm.OutputsValid[vm.Bmach.Internal_inputs[k].Res_id] == vm.InternalInputsValid[k]
 //@   loop 13: modifies vm.InternalInputsRecv[*]
+//@   loop 13: invariant sep: forall k int :: 0 <= k && k < len(vm.Bmach.Internal_inputs) && vm.Bmach.Internal_inputs[k].Map_to == 2 ==>
+//@             arr(vm.Processors[vm.Bmach.Internal_inputs[k].Res_id].InputsRecv) != arr(vm.InternalInputsRecv)
+//@   loop 13: invariant proc_ack: forall k int :: 0 <= k && k < $i && vm.Bmach.Internal_inputs[k].Map_to == 2 ==>
+//@             vm.InternalInputsRecv[k] == vm.Processors[vm.Bmach.Internal_inputs[k].Res_id].InputsRecv[vm.Bmach.Internal_inputs[k].Ext_id]
+//@   loop 14: entry proc_ack: forall k int :: 0 <= k && k < len(vm.Bmach.Internal_inputs) && vm.Bmach.Internal_inputs[k].Map_to == 2 ==>
+//@             vm.InternalInputsRecv[k] == vm.Processors[vm.Bmach.Internal_inputs[k].Res_id].InputsRecv[vm.Bmach.Internal_inputs[k].Ext_id]
 //@   loop 14: modifies dataRecv[*]
 //@   loop 14: invariant keys1: forall j int :: haskey(dataRecv, j) ==> fedBy(vm, j, i)
 //@   loop 14: invariant keys3: forall j int :: haskey(dataRecv, j) ==> j != -1
